@@ -87,6 +87,14 @@ def inf2(theta, N, seed):
     return _log(theta, N, seed, out)
 
 
+def nan2(theta, N, seed):
+    """NaN on one coordinate for part of the parameter space (a simulation that diverges there)."""
+    _enter(theta, N, seed)
+    th = np.asarray(theta, dtype=float)
+    out = np.tile(np.array([np.nan if th[0] > 0.5 else th[0], th[-1]]), (N, 1)) + np.arange(N)[:, None] * 1e-3
+    return _log(theta, N, seed, out)
+
+
 def const2(theta, N, seed):
     _enter(theta, N, seed)
     out = np.ones((N, 2)) * 0.25
@@ -120,4 +128,4 @@ def model_script(theta, N, seed):
     return _log(theta, N, seed, out)
 
 
-MODELS = {f.__name__: f for f in (gauss1, gauss2, ident2, huge2, inf2, const2, slow_uneven2, slow_ident2, model_script)}
+MODELS = {f.__name__: f for f in (gauss1, gauss2, ident2, huge2, inf2, nan2, const2, slow_uneven2, slow_ident2, model_script)}
